@@ -56,7 +56,7 @@ Qed.
 (* recording configuration (host clock, packet callback) and replay configuration (LiDAR clock) *)
 Definition replay_cfg (c : dcfg) : dcfg :=
   mk_dcfg (c_wait_for_difop c) (c_dense c) (c_split_mode c) (c_split_angle c) (c_num_blks c) (c_min_dist c) (c_max_dist c)
-          (c_start_angle c) (c_end_angle c) true (c_ts_first c) (c_pkt_cb c) (c_tz c) (c_user c) (c_tail c).
+          (c_start_angle c) (c_end_angle c) true (c_ts_first c) (c_pkt_cb c) (c_tz c) (c_user c) (c_tail c) (c_from_file c).
 
 (* T3 (time half): the packet time of the replayed record = receive time = original packet time +
    one packet duration, exactly (the codec loses nothing at microsecond resolution) *)
